@@ -23,11 +23,11 @@ import vlib
 
 GEN_DEPS = ('builtins', 'prefixes')
 SEEDS = ['0', '1', '2', 'random']
-ORDERED_KEYS = ('annotations', 'var_order', 'eq_order', 'states', 'derived', 'derivatives', 'states_unsorted', 'derived_unsorted',
+ORDERED_KEYS = ('annotations', 'eq_numbers', 'unit_meaning', 'var_order', 'eq_order', 'states', 'derived', 'derivatives', 'states_unsorted', 'derived_unsorted',
                 'derivatives_unsorted', 'eqs_for', 'eqs_for_units', 'eqs_for_top',
                 'eqs_for_each', 'free')
 # name-sorted queries: their answers depend on the equation graph only, never on the order of anything in the file
-GRAPH_KEYS = ('eqs_for', 'eqs_for_units', 'eqs_for_top', 'eqs_for_each', 'free')
+GRAPH_KEYS = ('eq_numbers', 'unit_meaning', 'eqs_for', 'eqs_for_units', 'eqs_for_top', 'eqs_for_each', 'free')
 
 
 def gen_cases(ctx):
@@ -156,7 +156,7 @@ def evaluate(ctx, cases, obs, use_model=True):
                     bad += [k for k in GRAPH_KEYS if base.get(k) != o.get(k)]
                     if bad:
                         what = 'the ordered query %s: %r' % (bad[0], first_diff(base.get(bad[0]), o.get(bad[0])))
-                    elif kind in ('units', 'units_reversed', 'units_forward', 'groups', 'ends') and base['eq_order'] != o['eq_order']:
+                    elif (kind.startswith('units') or kind in ('groups', 'ends')) and base['eq_order'] != o['eq_order']:
                         what = 'the order of Model.equations'
             if what is not None:
                 ctx.violation('document %s: permuting %s changes %s' % (c['gen_seed'], kind, what),
